@@ -94,7 +94,7 @@ type c14Work struct {
 }
 
 // c14Process runs one independent unit of work and returns a digest of everything it produced.
-func c14Process(w c14Work) (digest uint64, perr string) {
+func c14Process(w c14Work, variant uint64) (digest uint64, perr string) {
 	p, pv, st := fw.Recover(func() {
 		var parts []byte
 		add := func(b []byte) { parts = append(parts, b...); parts = append(parts, 0xfe) }
@@ -146,7 +146,9 @@ func c14Process(w c14Work) (digest uint64, perr string) {
 			add(buf[:n])
 		case "registry":
 			names := []string{"NXM_NX_REG0", "NXM_NX_REG7", "NXM_NX_CT_MARK", "OXM_OF_METADATA", "NXM_NX_TUN_ID", "nxm_nx_reg3", "NXM_NX_XXREG1", "NXM_NX_CT_LABEL", "OXM_OF_ETH_DST"}
-			name := names[w.aux%uint64(len(names))]
+			// the letter case of the spelling differs between the sequential and the concurrent pass (and between
+			// units): results must not depend on it, and a lookup must not write shared state for a new spelling
+			name := randomCase(names[w.aux%uint64(len(names))], prng.Derive(w.aux, variant))
 			f, err := of.FindFieldHeaderByName(name, w.aux&1 == 1)
 			if err != nil {
 				break
@@ -259,7 +261,7 @@ func c14Eval(c *fw.Ctx, data any) {
 	seq := make([]uint64, len(work))
 	alone := make([]bool, len(work)) // units that panic even when run alone (undecodable shapes: other properties' business) are not compared
 	for k, w := range work {
-		d, perr := c14Process(w)
+		d, perr := c14Process(w, 0)
 		if perr != "" {
 			alone[k] = true
 			c.Count("units_panicking_alone_skipped", 1)
@@ -277,7 +279,7 @@ func c14Eval(c *fw.Ctx, data any) {
 			<-start2
 			for j := g; j < len(perm); j += G {
 				k := perm[j]
-				conc[k], perrs[k] = c14Process(work[k])
+				conc[k], perrs[k] = c14Process(work[k], 1)
 			}
 		}(g)
 	}
@@ -310,4 +312,3 @@ func c14Eval(c *fw.Ctx, data any) {
 	}
 	_ = util.Message(nil)
 }
-
